@@ -71,6 +71,7 @@ struct MTempl
     std::vector<MLoc> locs;
     std::vector<MBranch> bps;
     int init{0};
+    bool omit_init{false};      // model fault (XML rendering only): no <init> element
     std::string init_override;  // model fault: the init ref / name written instead of the initial location's
     std::vector<MEdge> edges;
 };
@@ -254,6 +255,8 @@ enum StructFault {
     SF_SWAP_SIBLINGS,
     SF_EMPTY_TEXT,
     SF_RENAME_TAG,
+    SF_ODD_TEXT,         // the text of a leaf element that is not a grammar block (name, lsclocation, anchors, ...) becomes
+                         // something its reader does not expect: not a number, not an identifier, padded, huge
     SF_COUNT
 };
 const char* byte_fault_name(int);
@@ -291,6 +294,8 @@ enum ModelFault {
     MF_RANDOM_INIT,      // "double zrnd = random(5);": a random built-in where a compile-time value is demanded
     MF_GLOBAL_DECL_IN_TEMPLATE,  // a declaration that only makes sense globally (dynamic template, process, instantiation,
                                  // priorities, update hooks) inside a template's local <declaration>
+    MF_BAD_NAME,         // a location or template name that is not an identifier ("2nd", "Se-en", "Obs erver"; XML rendering only)
+    MF_NO_INIT,          // a template (also the definition of a dynamic template) without <init> (XML rendering only)
     MF_BAD_ITERATION_TYPE,  // "for (zi : bool)" / "for (zi : clock)" in a function body (diagnosed by the type checker)
     MF_COUNT
 };
